@@ -13,6 +13,8 @@ from .disc_common import dispatcher, expand1, min_error_dual, min_error_primal, 
 
 def run(ctx):
     m = ctx.model
+    from .disc_common import states_unscaled
+    states_unscaled(ctx, "/state_exclusion.py")
     from ..rules import r_parallel_families
     for q_, f_ in sorted(m.functions.items()):
         if f_.file.endswith("/state_exclusion.py") and f_.parent is None and f_.param("vectors") is not None and f_.param("probs") is not None:
